@@ -63,7 +63,10 @@
 #endif
 
 using T = VF_ELEM;
-using A = vf_alloc<T, VF_AFL>;
+#ifndef VF_SIZET
+#define VF_SIZET std::size_t
+#endif
+using A = vf_alloc<T, VF_AFL, VF_SIZET>;
 using V = gch::small_vector<T, VF_N, A>;
 using S = vf_sv<V>;
 using E = vf_elem<T>;
@@ -91,6 +94,9 @@ extern "C" void vf_main(void) {
   uint32_t ys[3]; for (unsigned i = 0; i < 3; ++i) ys[i] = vf_norm<T>(vf_in_u32());
   const uint32_t fat1 = vf_in_u32(), fat2 = vf_in_u32();
 
+#ifdef VF_MAXSZ
+  vf_max_size_value = VF_MAXSZ;   // the allocator's max_size(): a small harness-chosen value so that 'one past max_size' is reachable
+#endif
   const int32_t live_before_all = vf_tr_live();
   {
     V v(A(7));
